@@ -475,7 +475,13 @@ func (g *G) resultType() {
 	}
 	// views: default (all or most fields) + 0-2 others
 	def := &m.View{Name: "default"}
+	partial := rapid.IntRange(0, 3).Draw(t, "partialdefault") == 0
 	for _, f := range obj.Fields {
+		// the default view may leave optional attributes out (also when it is the only view)
+		if partial && !f.Required && len(def.Fields) > 0 && rapid.Bool().Draw(t, "indefault") {
+			g.feat("default-view-omits-attributes")
+			continue
+		}
 		def.Fields = append(def.Fields, g.viewField(f))
 	}
 	ut.Views = append(ut.Views, def)
